@@ -142,7 +142,8 @@ def store_tie(exe, rng, quick, ev, rep, pinf_ninf):
             if got != after:
                 bad = [key for key in after if after[key] != got.get(key)]
                 rep.violation("raw column store after %r differs from the Store model in %s: C %s, model %s" % (o, bad[0], " ".join(after[bad[0]] or [])[:200], " ".join(got.get(bad[0]) or [])[:200]),
-                              dict(ctx, at=o, field=bad[0]), signature={"symptom": "store-differs", "op": o.split()[0], "field": bad[0]})
+                              dict(ctx, at=o, field=bad[0], correspondence="raw column store vs Qsx.Store (lean/Qsx/Model/Store.lean)"),
+                              signature={"symptom": "store-differs", "op": o.split()[0], "field": bad[0]}, found_input=False)
                 break
 
 
